@@ -342,16 +342,24 @@ def stack_model(host, targets, is_x, read):
     out = []
     for tg in targets:
         out.append('# Stacked profile: ' + tg)
+        depth = 0
         for l in body_lines(read(tg)):
             s = l.strip()
             if not s:
                 continue
-            if re.match(r'^include\s+<abstractions/base>$', s) or '@{exec_path}' in l:
-                continue
-            if not is_x:
-                c = scan.classify(scan.split_comment(s)[0])
-                if c['kind'] == 'file' and c.get('exec_mode'):
+            # a sub-profile or hat is ONE rule of the stacked profile: what is inside it is not the stacked profile's
+            # base include, entry point or exec transition and is added unchanged
+            if s.endswith('{') and not s.startswith('#'):
+                depth += 1; out.append(s); continue
+            if s == '}':
+                depth -= 1; out.append(s); continue
+            if depth == 0:
+                if re.match(r'^include\s+<abstractions/base>$', s) or '@{exec_path}' in l:
                     continue
+                if not is_x:
+                    c = scan.classify(scan.split_comment(s)[0])
+                    if c['kind'] == 'file' and c.get('exec_mode'):
+                        continue
             out.append(s)
     return out
 
@@ -428,11 +436,17 @@ COMP_TARGETS = {
     'st-dir': ['include <abstractions/base>', '', '@{exec_path} mr,', '', '#aa:dbus own bus=system name=org.example.Child', '', '/etc/st-dir r,', '/etc/st-dir.only r, #aa:only arch',
                '/etc/st-dir.excl r, #aa:exclude arch'],
     'st-chain': ['include <abstractions/base>', '', '@{exec_path} mr,', '', '/etc/st-chain r,', '', '#aa:stack st-dir'],
+    # a guarded PARAGRAPH inside the stacked profile, with unguarded rules after it
+    'st-para': ['include <abstractions/base>', '', '@{exec_path} mr,', '', '/etc/st-para.a r,', '', '#aa:only verif-no-such-target', '/etc/st-para.guarded r,', '/etc/st-para.guarded2 r,', '',
+                '/etc/st-para.b r,', '', '/etc/st-para.c r,'],
 }
+# what must / must not be in the output whenever the line is in the host (independent of the real code)
+COMP_EXPECT = {'stack-para': (['/etc/st-para.a r,', '/etc/st-para.b r,', '/etc/st-para.c r,', 'include if exists <local/st-para>'], ['/etc/st-para.guarded r,', '/etc/st-para.guarded2 r,'])}
 COMP_LINES = {
     'stack-dir': '  #aa:stack st-dir',
     'stack-plain': '  #aa:stack st-plain',
     'stack-chain': '  #aa:stack st-chain',
+    'stack-para': '  #aa:stack st-para',
     'dbus': '  #aa:dbus own bus=session name=org.example.Host',
     'exec': '  #aa:exec gen-t1',
     'only': '  /etc/host.only r, #aa:only arch',
@@ -501,6 +515,14 @@ def composition_part(rn, tier, ev, fnd):
         if r.get('err') or r.get('panic'):
             fnd.report('composition-fails lines=%d' % len(s), '%s fails: %s' % (where, r.get('err') or r.get('panic')), {'text': comp_host(s)}); continue
         got = Counter(l.strip() for l in r['out'].split('\n') if l.strip())
+        for t in s:
+            must, mustnot = COMP_EXPECT.get(t, ([], []))
+            lost = [l for l in must if l not in got]; kept = [l for l in mustnot if l in got]
+            if lost or kept:
+                fnd.report('composition-guarded-paragraph-in-stacked-profile lost=%d kept=%d' % (bool(lost), bool(kept)),
+                           '%s: a guarded paragraph inside the stacked profile: unguarded lines %s are lost, guarded lines %s survive' % (where, lost, kept), {'text': comp_host(s), 'out': r['out']})
+        if any(t in COMP_EXPECT for t in s):
+            continue            # judged by the explicit expectation above (the sum would only repeat a finding of it)
         want = Counter(fixed)
         for t in s:
             want += own[t]
@@ -512,7 +534,7 @@ def composition_part(rn, tier, ev, fnd):
                 where, sorted((want - got).elements())[:4], sorted((got - want).elements())[:4]), {'text': comp_host(s), 'out': r['out']})
     ev.add(transitions=len(allseqs) + len(tags) + 1, composition_sum_hosts=len(allseqs))
     # oracle 2 (differential): stack directives expanded by hand
-    seqs = [s for s in allseqs if any(t.startswith('stack') for t in s)]
+    seqs = [s for s in allseqs if any(t.startswith('stack') for t in s) and not any(t in COMP_EXPECT for t in s)]
     hosts = [comp_host(s) for s in seqs]
     inlined = [inline_stacks(h, rn.read) for h in hosts]
     res = rn.run(hosts + inlined)
